@@ -404,25 +404,40 @@ def decoder_model(vm):
     return fn, model
 
 
-def _walk_case(fn, start, sw):
-    """enumerate paths from a case block until the block after the switch; returns a set of
-    (delta, min_depth_after, fails) over non-failing paths."""
+def _depth_paths(fn, start, fx, level=0):
+    """enumerate the paths from block `start` to a break / the function exit; returns [(delta of _stack_depth, constraints on
+    (entry depth + offset), failed with underfull_stack)].  Calls of other decoder methods that touch _stack_depth (a helper such
+    as `consume_operand()`) are summarised the same way and composed."""
     results = []
+    summaries = {}
 
     def is_depth(n):
         n = fn.strip(n)
         return n['k'] == 'MemberExpr' and n['d'].endswith('decoder::_stack_depth')
 
-    def rec(b, delta, cons, failed, seen):
-        if len(results) > 2000:
+    def helper_summary(fq):
+        if fq in summaries:
+            return summaries[fq]
+        summaries[fq] = None
+        if level >= 2 or fx is None:
+            return None
+        cands = [g for g in fx.fns_named(fq) if g.blocks]
+        if len(cands) == 1 and cands[0] is not fn:
+            g = cands[0]
+            touches = any(e['k'] == 'MemberExpr' and e['d'].endswith('decoder::_stack_depth') for _, e in g.elements())
+            if touches:
+                summaries[fq] = _depth_paths(g, g.entry, fx, level + 1)
+        return summaries[fq]
+
+    def run_block(b, idx, delta, cons, failed, vals, seen):
+        if len(results) > 4000:
             raise AnalysisBroken('fetch_opcode: too many paths in one case')
-        if seen.get(b, 0) >= 2:
-            return
-        seen = dict(seen)
-        seen[b] = seen.get(b, 0) + 1
         blk = fn.blocks[b]
-        vals = {}
-        for e in blk['el']:
+        els = blk['el']
+        vals = dict(vals)
+        while idx < len(els):
+            e = els[idx]
+            idx += 1
             k = e['k']
             if k == 'UnaryOperator' and e['op'] in ('pre++', 'pre--', 'post++', 'post--') and is_depth(e['c'][0]):
                 d = 1 if '++' in e['op'] else -1
@@ -441,36 +456,70 @@ def _walk_case(fn, start, sw):
             elif k in ('ImplicitCastExpr', 'ParenExpr') and isinstance(e['c'][0], int) and e['c'][0] in vals:
                 vals[e['i']] = vals[e['c'][0]]
             elif k == 'BinaryOperator' and e['op'] in ('<', '<=', '>', '>=', '==', '!='):
-                a = vals.get(e['c'][0]) if isinstance(e['c'][0], int) else None
-                cst = fn.strip_all_casts(e['c'][1]).get('v')
-                if a is not None and cst is not None:
-                    vals[e['i']] = ('cmp', e['op'], a[1], cst)
+                a_ = vals.get(e['c'][0]) if isinstance(e['c'][0], int) else None
+                b_ = vals.get(e['c'][1]) if isinstance(e['c'][1], int) else None
+                cst = dom_cval(fn, e['c'][1])
+                cst0 = dom_cval(fn, e['c'][0])
+                if a_ is not None and a_[0] == 'depth' and cst is not None:
+                    vals[e['i']] = ('cmp', e['op'], a_[1], cst)
+                elif b_ is not None and b_[0] == 'depth' and cst0 is not None:
+                    vals[e['i']] = ('cmp', {'<': '>', '>': '<', '<=': '>=', '>=': '<=', '==': '==', '!=': '!='}[e['op']], b_[1], cst0)
             elif k == 'CXXMemberCallExpr' and (e.get('fq') or '').endswith('decoder::failure'):
                 arg = fn.strip_all_casts(e['args'][0]) if e.get('args') else {}
                 if (arg.get('d') or '').endswith('underfull_stack'):
                     failed = True
-        succ = [s for s in blk['succ']]
+            elif k == 'CXXMemberCallExpr' and '::decoder::' in (e.get('fq') or ''):
+                sm = helper_summary(e['fq'])
+                if sm:
+                    for dg, cg, fg in sm:
+                        run_block(b, idx, delta + dg, list(cons) + [(op, off + delta, cst, pol) for op, off, cst, pol in cg], failed or fg, vals, seen)
+                    return
+        succ = [s_ for s_ in blk['succ']]
         term = blk.get('term') or {}
-        if term.get('k') == 'BreakStmt' or not succ or all(s is None for s in succ):
+        if term.get('k') == 'BreakStmt' or not succ or all(s_ is None for s_ in succ):
             results.append((delta, tuple(cons), failed))
             return
         if len(succ) == 1:
-            nxt = succ[0]
-            lab = fn.blocks[nxt].get('label') or {}
-            # falling into the next case label is part of this case (fall-through)
-            rec(nxt, delta, cons, failed, seen)
+            enter(succ[0], delta, cons, failed, seen)
             return
         cond = term.get('cond')
         cv = vals.get(cond) if cond is not None else None
-        for idx, pol in ((0, True), (1, False)):
-            if succ[idx] is None:
+        neg = False
+        if cv is None and cond is not None:
+            # `!(--depth >= 0)` and similar: look through a logical not
+            n = fn.strip(fn.nodes[cond]) if cond in fn.nodes else None
+            while n is not None and n['k'] == 'UnaryOperator' and n['op'] == '!':
+                neg = not neg
+                inner = n['c'][0]
+                cv = vals.get(inner) if isinstance(inner, int) else None
+                n = fn.strip(fn.nodes[inner]) if isinstance(inner, int) and inner in fn.nodes and cv is None else None
+        for idx2, pol in ((0, True), (1, False)):
+            if succ[idx2] is None:
                 continue
             c2 = list(cons)
             if cv is not None and cv[0] == 'cmp':
-                c2.append((cv[1], cv[2], cv[3], pol))
-            rec(succ[idx], delta, c2, failed, seen)
+                c2.append((cv[1], cv[2], cv[3], pol != neg))
+            enter(succ[idx2], delta, c2, failed, seen)
 
-    rec(start, 0, [], False, {})
+    def enter(b, delta, cons, failed, seen):
+        if seen.get(b, 0) >= 2:
+            return
+        seen = dict(seen)
+        seen[b] = seen.get(b, 0) + 1
+        run_block(b, 0, delta, cons, failed, {}, seen)
+
+    enter(start, 0, [], False, {})
+    return results
+
+
+def dom_cval(fn, x):
+    from . import dom
+    return dom._cval(fn, x)
+
+
+def _walk_case(fn, start, sw):
+    """(delta, minimum entry depth) of one `case` of fetch_opcode's switch over its non-failing paths"""
+    results = _depth_paths(fn, start, getattr(fn, 'fx', None))
     ok = [(d, c) for d, c, f in results if not f]
     if not ok:
         return None
